@@ -16,6 +16,30 @@ CLAIMS = {
     note="Trusted: Lean kernel (axioms printed in evidence), harness AST→scope-tree dump and HIR walk, the generator's coverage of scope shapes. "
          "The typer's own scoping (LocalTypeEnv) is exercised only through the acceptance oracle.",
     technique="Lean 4 proof (structural induction over the nested AST) + differential correspondence with the Rust resolver"),
+ "C06": dict(
+    category="proof",
+    text="Lean theorems over a model of compile_match.rs (move_variable_patterns, branch_variable with its last-maximum rule, the row "
+         "distribution of the unit/bool/int/string/enum/struct/tuple cases, gensym threading, compile_rows with fuel), quantified over ALL "
+         "pattern matrices the compiler accepts (wildcards, variables, unit/bool/integer/string literals, tuples, structs, enum constructors incl. "
+         "generic enums, any nesting, any number of rows and columns), all arm bodies (a type parameter) and all scrutinee values of the right "
+         "shape: compileRows_correct (running the compiled tree reaches exactly the body of the first row all of whose patterns match, in the "
+         "environment extended by generated temporaries and exactly that row's bindings; no row matches => the `missing` failure), "
+         "no_other_arm_runs, no_match_fails, bindings_correct (every pattern variable is bound to the component matchPat assigns it; all other "
+         "non-generated names unchanged), compileRows_correct_sem + toExpr_sem (the same statement for Sem.eval on the Core expression, with exact "
+         "fuel accounting), scrutinee_once / scrutinee_var, int_nonexhaustive_rejected, compileRows_total (fuel above the pattern-size measure "
+         "never runs out: every sub-matrix is strictly smaller), compileRows_counter, realGen_injective / realGen_ne (discharge the gensym "
+         "hypotheses for the compiler's x{n}). Tied to the Rust on every run (L1): every match / destructuring let of the real typed AST of the "
+         "corpus, of exhaustively enumerated / sampled small matrices and of generated programs with nested patterns is compiled by the REAL "
+         "compile_match::compile_file (marker bodies) and the model's Core must equal the real Core up to bound names. Independent oracle: the "
+         "real Core runs under Sem on every value of the scrutinee type up to depth 3 and must behave like firstMatch on the source patterns.",
+    design_ref="§5 C06, 'C06 — as built'",
+    note="Proved about the model; that the model equals compile_match.rs is validated differentially (L1), not proved. Hypotheses of the main "
+         "theorem: gensym injective and fresh (proved for x{n} vs names not starting with x), values of the scrutinee's shape (`conf`, evaluated "
+         "on every generated value), no pattern variable spelled like a column variable (`leavesOK`, decidable on the output, evaluated on every "
+         "real tree). Float patterns and matches on Vec/Ref/dyn panic in the compiler (C04); `missing` at a non-unit Go type is C02's finding; the "
+         "ANF/Go lowering of the tree is covered by C01's stage-wise oracle, not here. Trusted: Lean kernel, Sem as the meaning of Core, "
+         "harness TAST walk and dumps, the driver's alpha-equivalence and value enumeration.",
+    technique="Lean 4 proof (induction over fuel / rows / patterns) + differential correspondence with the real match compiler + first-match oracle on the real Core"),
  "C10": dict(
     category="proof",
     text="Lean theorems over a model of the integer-literal pipeline and of the operator mapping, quantified over the tables regenerated from the "
